@@ -294,9 +294,14 @@ func cmdCheck(args []string) int {
 		}
 		evFuncs = append(evFuncs, evFunc{Name: "lemma " + l.name, Verified: true, Arith: map[bool]string{true: "bv", false: "int"}[l.bv], Obligations: len(v.obls)})
 	}
-	if prop == "C19" {
-		// lock-discipline sweep: every function of the packages with `guarded` declarations that touches one
+	if prop == "C19" || prop == "C05" {
+		// lock-discipline sweep: every function of the packages with `guarded` declarations that touches one.
+		// For C05 only the goroutine-capture obligations of the coordinator's fan-out loops are taken (a loop
+		// variable shared between the fan-out goroutines asks one owner twice and another one never).
 		for _, fn := range e.sweepTargets() {
+			if prop == "C05" && !(spawnsGoroutineClosure(fn) && strings.Contains(fn.String(), "/coordinator.")) {
+				continue
+			}
 			sfc := e.sweepContract(fn)
 			if sfc == nil {
 				continue
@@ -321,6 +326,9 @@ func cmdCheck(args []string) int {
 			for _, ob := range v.obls {
 				if ob.kind != "guard" {
 					continue // the sweep contract claims nothing else (covers of its paths are not vacuity guards of a claim)
+				}
+				if prop == "C05" && !strings.HasPrefix(ob.label, "goroutine_") {
+					continue
 				}
 				obs = append(obs, ob)
 				owner[ob] = v
